@@ -943,6 +943,9 @@ def make_enc(env, spec):
     lib = []
     if len(keys) == 1 and not usage:
         lib = ["jweenc\t%s\t%s\t%s\t%s" % (dumps(tmpl or {}), dumps(rcps[0]) if rcps else "-", dumps(keys[0]), hx(pt))]
+    elif len(keys) > 1 and not usage:
+        # several -k: every key gets its own recipient template, the -r ones in order, then fresh empty objects
+        lib = ["jweenc\t%s\t%s\t%s\t%s" % (dumps(tmpl or {}), dumps(list(rcps) + [{} for _ in range(len(keys) - len(rcps))]), dumps(keys), hx(pt))]
     sp = dict(spec, usage=usage, keyvals=keys)
     return Case("jwe enc", ["jwe", "enc"], args, files, None, sp, lib, None)
 
@@ -1054,6 +1057,7 @@ def gen_enc(env, rnd, tier):
               (["ecpub"], T("ECDH-ES+A128KW", "A128GCM", False, None)), (["ecpub"], None), (["rsapub"], T("RSA-OAEP", "A256GCM", False, None)),
               (["pw"], None), (["a128"], T("A128GCMKW", "A128CBC-HS256", False, None, where="split")),
               (["a128", "ecpub"], {"protected": {"enc": "A128GCM"}}), (["a128", "a128b"], None),
+              (["a128", "a128b", "a128"], {"protected": {"enc": "A128GCM"}}), (["ecpub", "a128", "rsapub"], None), (["a128", "pw", "a128b"], None),
               # header parameters split over protected / shared unprotected with the algorithm named explicitly (no
               # per-recipient header is then created): compact output must still carry everything decryption needs
               (["a128"], {"protected": {"alg": "A128KW"}, "unprotected": {"enc": "A128GCM"}}),
